@@ -310,7 +310,7 @@ class Corr:
         self.err = None
 
 
-def correspondence(ctx, domain, drv_args, gen_args=(), hx_env=None, ops_text=None, timeout=3000):
+def correspondence(ctx, domain, drv_args, gen_args=(), hx_env=None, ops_text=None, timeout=3000, drv_domain=None):
     """Runs generator, implementation and model on the same op lines."""
     c = Corr()
     hx = os.path.join(BIN, "hx")
@@ -332,7 +332,7 @@ def correspondence(ctx, domain, drv_args, gen_args=(), hx_env=None, ops_text=Non
         c.err = "hx run timed out"
         return c
     try:
-        rc2, model, err2 = run_lines([drv_path(), domain, *drv_args], ops_text, timeout=timeout)
+        rc2, model, err2 = run_lines([drv_path(), drv_domain or domain, *drv_args], ops_text, timeout=timeout)
     except subprocess.TimeoutExpired:
         c.err = "drv timed out"
         return c
